@@ -19,6 +19,8 @@ pub fn jreal(x: f64) -> J {
     if x == f64::INFINITY { return json!({"t": "real", "c": "pinf", "n": 0, "d": 1}); }
     if x == f64::NEG_INFINITY { return json!({"t": "real", "c": "ninf", "n": 0, "d": 1}); }
     if x == 0.0 && x.is_sign_negative() { return json!({"t": "real", "c": "nzero", "n": 0, "d": 1}); }
+    if x == 9223372036854775808.0 { return json!({"t": "real", "c": "p63", "n": 0, "d": 1}); }
+    if x == -9223372036854775808.0 { return json!({"t": "real", "c": "n63", "n": 0, "d": 1}); }
     let mut d: i64 = 1;
     while d <= 1024 {
         let y = x * d as f64;
@@ -63,6 +65,7 @@ pub fn int_of(v: &J) -> i64 {
 pub fn real_of(v: &J) -> f64 {
     match v["c"].as_str().unwrap() {
         "nan" => f64::NAN, "pinf" => f64::INFINITY, "ninf" => f64::NEG_INFINITY, "nzero" => -0.0,
+        "p63" => 9223372036854775808.0, "n63" => -9223372036854775808.0,
         _ => v["n"].as_i64().unwrap() as f64 / v["d"].as_i64().unwrap() as f64
     }
 }
